@@ -36,7 +36,7 @@ def build(U):
     st.text = re.sub(r'[ \t]*#\[derive\([^\]]*\)\]\n?', '', st.text)
     U.emit(st, under_contract=False)
     im = U.impl(M, "TypedNode<'i, R> for EOI").drop_attrs()
-    im.prepend_in_block("    open spec fn sem(c: Ctx<'i>, pos: nat, st: Seq<Span<'i>>) -> Res<'i> { sem_eoi(c, pos, st) }")
+    im.prepend_in_block(P.semdef("sem_eoi(c, pos, st)"))
     U.emit(im)
     U.ghost(SPEC, 'full-match specification')
     for name, ok, kind in [('parse', 'full_ok::<R, _Self, IGNORED>', 'p'), ('check', 'full_ok::<R, _Self, IGNORED>', 'c'),
